@@ -5,6 +5,7 @@ import (
 	"path/filepath"
 	"regexp"
 	"sort"
+	"strconv"
 	"strings"
 	"testing"
 )
@@ -37,7 +38,9 @@ func newRaceReports() (sig, text string) {
 	if prefix == "" {
 		return "unattributed", "race detected (no VERIF_RACELOG)"
 	}
-	files, _ := filepath.Glob(prefix + ".*")
+	// only THIS process's log (the race runtime appends ".<pid>"): batch, shrink and replay processes of one
+	// check share the prefix, and another process's reports must never be attributed to a run of this one
+	files, _ := filepath.Glob(prefix + "." + strconv.Itoa(os.Getpid()))
 	sort.Strings(files)
 	var fresh strings.Builder
 	for _, f := range files {
